@@ -659,6 +659,12 @@ func (sc *SpecCtx) evalCall(x *SCall) Term {
 		v := sc.eval(x.Args[0])
 		d.declFun("dyntype", "V", "Int")
 		return Term{S: sApp("dyntype", v.S), Sort: sInt}
+	case "implements":
+		// implements(x, "IfaceType"): the dynamic type of x implements the interface (x non-nil)
+		argn(2)
+		v := sc.eval(x.Args[0])
+		t := c.e.resolveGoType(specTypeString(x.Args[1]), sc.pkg, sc.pos)
+		return Term{S: sAnd(c.implementsTerm(v, t), sNot(sEq(v.S, "nilV"))), Sort: sBool}
 	case "typetag":
 		argn(1)
 		t := c.e.resolveGoType(specTypeString(x.Args[0]), sc.pkg, sc.pos)
